@@ -36,7 +36,7 @@ func isUpdateOn(in ssa.Instruction, a ssa.Value) *ssa.Call {
 	if !ok || calleeName(&cl.Call) != csRecv+"update" {
 		return nil
 	}
-	if stateAddrs(a)[cl.Call.Args[1]] {
+	if stateAddrs(a)[argsOf(cl)[1]] {
 		return cl
 	}
 	return nil
@@ -165,13 +165,13 @@ func stateFormula(a ssa.Value, root ssa.Instruction, at ssa.Instruction, extraNa
 	fb.namer = func(v ssa.Value) (string, bool) {
 		if cl, ok := v.(*ssa.Call); ok && strings.HasPrefix(calleeName(&cl.Call), cbRecv) {
 			acc := strings.TrimPrefix(calleeName(&cl.Call), cbRecv)
-			if ld, ok := cl.Call.Args[0].(*ssa.UnOp); ok && ld.X == a {
+			if ld, ok := argsOf(cl)[0].(*ssa.UnOp); ok && ld.X == a {
 				if ld == root || sameVersion(a, ld, root) || sameVersion(a, ld, at) {
 					return acc, true
 				}
 				return acc + "@other-version", true
 			}
-			if p, ok := cl.Call.Args[0].(*ssa.Parameter); ok {
+			if p, ok := argsOf(cl)[0].(*ssa.Parameter); ok {
 				_ = p
 				return acc, true
 			}
@@ -213,7 +213,7 @@ func rootLoad(v ssa.Value) (*ssa.UnOp, []string) {
 			break
 		}
 		muts = append([]string{strings.TrimPrefix(n, cbRecv)}, muts...)
-		v = cl.Call.Args[0]
+		v = argsOf(cl)[0]
 	}
 	ld, _ := v.(*ssa.UnOp)
 	return ld, muts
@@ -304,7 +304,7 @@ func runC03(c *Ctx) {
 				if !ok || !f.Pol || calleeName(&cl.Call) != csRecv+"update" {
 					return false
 				}
-				_, muts := rootLoad(cl.Call.Args[2])
+				_, muts := rootLoad(argsOf(cl)[2])
 				return len(muts) == 1 && muts[0] == "incReader"
 			})
 			r.Check("C03.ptr-ownership", "Add/reads c.ptr under the reader lock", m.Pos(fa.Pos()), okLock, "c.ptr may be read in Add only after update(state.incReader()) succeeded")
@@ -316,10 +316,10 @@ func runC03(c *Ctx) {
 	for _, fn := range []*ssa.Function{add, relR, relL, inval, refresh} {
 		for _, cs := range callsIn(fn, csRecv+"update") {
 			u := cs.(*ssa.Call)
-			a := u.Call.Args[1]
-			root, muts := rootLoad(u.Call.Args[2])
+			a := argsOf(u)[1]
+			root, muts := rootLoad(argsOf(u)[2])
 			if !isStateAddr(a) || root == nil || root.X != a {
-				r.Check("C03.lock-preconditions", fname(fn)+"/update operand", m.Pos(u.Pos()), false, "update must install a mutation of the local state copy it compares against; got "+describe(u.Call.Args[2]))
+				r.Check("C03.lock-preconditions", fname(fn)+"/update operand", m.Pos(u.Pos()), false, "update must install a mutation of the local state copy it compares against; got "+describe(argsOf(u)[2]))
 				continue
 			}
 			nSites++
@@ -395,8 +395,8 @@ func runC03(c *Ctx) {
 					for _, in := range s.Instrs {
 						if cl, isC := in.(*ssa.Call); isC && calleeName(&cl.Call) == "(*internal/counter.Counter).add" {
 							// the amount: extra() of a load of the same version as root
-							if ec, isE := strip(cl.Call.Args[1]).(*ssa.Call); isE && calleeName(&ec.Call) == cbRecv+"extra" {
-								if ld, isL := ec.Call.Args[0].(*ssa.UnOp); isL && ld.X == a && (ld == root || sameVersion(a, ld, root)) {
+							if ec, isE := strip(argsOf(cl)[1]).(*ssa.Call); isE && calleeName(&ec.Call) == cbRecv+"extra" {
+								if ld, isL := argsOf(ec)[0].(*ssa.UnOp); isL && ld.X == a && (ld == root || sameVersion(a, ld, root)) {
 									ok = true
 								}
 							}
@@ -417,7 +417,7 @@ func runC03(c *Ctx) {
 				if !ok || !f.Pol || calleeName(&cl.Call) != csRecv+"update" {
 					return false
 				}
-				_, muts := rootLoad(cl.Call.Args[2])
+				_, muts := rootLoad(argsOf(cl)[2])
 				return len(muts) == 1 && muts[0] == "clearLocked"
 			})
 			r.Check("C03.pairing", "releaseLock returns only after clearing the lock", m.Pos(ret.Pos()), okRet, "return must be dominated by a successful update(state.clearLocked())")
@@ -430,7 +430,7 @@ func runC03(c *Ctx) {
 				if !ok || !f.Pol || calleeName(&cl.Call) != csRecv+"update" {
 					return false
 				}
-				_, muts := rootLoad(cl.Call.Args[2])
+				_, muts := rootLoad(argsOf(cl)[2])
 				return len(muts) == 1 && muts[0] == "decReader"
 			})
 			okDel := false
@@ -446,7 +446,7 @@ func runC03(c *Ctx) {
 	// ---- 9. negative cache ---------------------------------------------------------
 	for _, cs := range callsIn(relL, csRecv+"update") {
 		u := cs.(*ssa.Call)
-		_, muts := rootLoad(u.Call.Args[2])
+		_, muts := rootLoad(argsOf(u)[2])
 		if len(muts) != 1 || muts[0] != "setHavePtr" {
 			continue
 		}
@@ -486,13 +486,13 @@ func runC03(c *Ctx) {
 		var listCAS *ssa.Call
 		for _, cs := range callsIn(reg) {
 			cn := calleeName(cs.Common())
-			if strings.Contains(cn, "Pointer[internal/counter.Counter]).CompareAndSwap") && strings.HasSuffix(describe(cs.Common().Args[0]), ".counters") {
+			if strings.Contains(cn, "Pointer[internal/counter.Counter]).CompareAndSwap") && strings.HasSuffix(describe(argsOf(cs)[0]), ".counters") {
 				listCAS = cs.(*ssa.Call)
 			}
 		}
 		r.Check("C03.register", "register/publishes with a CAS on the list head", m.Pos(reg.Pos()), listCAS != nil, "")
 		if listCAS != nil {
-			head := strip(listCAS.Call.Args[1])
+			head := strip(argsOf(listCAS)[1])
 			headIn, _ := head.(ssa.Instruction)
 			setsNext := func(in ssa.Instruction) bool {
 				cc := callOf(in)
@@ -616,7 +616,7 @@ func c03Swap(c *Ctx, m *Module) {
 			n++
 			held := func(f *ssa.Function, at ssa.Instruction) bool {
 				for _, lk := range callsIn(f, muLock) {
-					if strings.HasSuffix(describe(lk.Common().Args[0]), ".mu") && precedes(lk, at) {
+					if strings.HasSuffix(describe(argsOf(lk)[0]), ".mu") && precedes(lk, at) {
 						// not released before `at` other than by defer
 						unlocked := false
 						for _, ul := range callsIn(f, "(*sync.Mutex).Unlock") {
@@ -696,8 +696,8 @@ func c03Swap(c *Ctx, m *Module) {
 	for _, fn := range m.PkgFuncs("internal/counter") {
 		for _, cl := range callsIn(fn, "(*internal/counter.mappedFile).close") {
 			published := false
-			for v := range backwardSlice(cl.Common().Args[0], 400) {
-				if lc, ok := v.(*ssa.Call); ok && strings.Contains(calleeName(&lc.Call), "mappedFile]).Load[") && strings.HasSuffix(describe(lc.Call.Args[0]), ".current") {
+			for v := range backwardSlice(argsOf(cl)[0], 400) {
+				if lc, ok := v.(*ssa.Call); ok && strings.Contains(calleeName(&lc.Call), "mappedFile]).Load[") && strings.HasSuffix(describe(argsOf(lc)[0]), ".current") {
 					published = true
 				}
 			}
